@@ -107,9 +107,7 @@ fn gen_lit(r: &mut Rng, near: &MVal, cfg: &GenCfg) -> MVal {
     if !pool.is_empty() && r.chance(3, 4) {
         r.pick(&pool).clone()
     } else {
-        let mut c = cfg.clone();
-        c.nonfinite = false;
-        gen::gen_scalar(r, &c)
+        gen::gen_scalar(r, cfg)
     }
 }
 
@@ -182,6 +180,17 @@ fn gen_expr(r: &mut Rng, item: &MVal, root: &MVal, cfg: &GenCfg, depth: usize, a
     };
     let lit = if !reached.is_empty() && r.chance(2, 3) { r.pick(&reached).clone() } else { gen_lit(r, base, cfg) };
     let path = Operand::Path(from_cur, steps);
+    // one comparison in six has a path on BOTH sides (any value of the left against any value of the right)
+    if r.chance(1, 6) {
+        let other_from_cur = allow_current && r.chance(1, 2);
+        let other_base = if other_from_cur { item } else { root };
+        let other = Operand::Path(other_from_cur, simple_steps(r, other_base, 2));
+        return if r.chance(1, 2) {
+            MExpr::Eq(path, other)
+        } else {
+            MExpr::Cmp(r.pick(&["!=", "<", "<=", ">", ">="]).to_string(), path, other)
+        };
+    }
     let literal_first = r.chance(1, 5);
     if r.chance(1, 3) {
         let op = r.pick(&["!=", "<", "<=", ">", ">="]).to_string();
@@ -362,7 +371,9 @@ pub fn value_profile(r: &mut Rng) -> (GenCfg, bool) {
         max_width: r.urange(1, 6),
         nums,
         long: r.chance(1, 8),
-        nonfinite: nums == NumProfile::All && r.chance(1, 4),
+        // NaN and the infinities are totally ordered by the library (NaN equal to itself and greatest), so they
+        // may meet filters as long as no integer beyond 2^53 is around
+        nonfinite: nums != NumProfile::NoFloat && r.chance(1, 4),
         container_pct: *r.pick(&[30u64, 45, 60]),
     };
     (cfg, nums != NumProfile::All)
